@@ -145,7 +145,10 @@ type c14Spec struct {
 	AnsCert   string
 	OffMFP    int // media-level fingerprints on the offerer: 0/1, -1 random
 	AnsMFP    int
-	Digit     int // 1..15: index+1 of the replacement among the 15 other hex digits; 0 = random
+	Digit     int    // 1..15: index+1 of the replacement among the 15 other hex digits; 0 = random
+	Reconf    string // SetConfiguration history kind (c14_reconf_test.go); "" = random background history on a third of the peers
+	ReconfWho string // "offerer", "answerer", "both"
+	Reneg     bool   // the history is applied to the connected pair and followed by a second offer/answer exchange
 }
 
 var ( //nolint:gochecknoglobals
@@ -277,6 +280,9 @@ func c14Specs(seed uint64) []c14Spec {
 		}
 	}
 
+	// configuration histories: SetConfiguration calls between construction and CreateOffer / CreateAnswer
+	out = append(out, c14ReconfSpecs(rr, thorough)...)
+
 	return out
 }
 
@@ -332,6 +338,11 @@ func c14MakeCerts(class string, r *kit.Rand, keys *c14Keys) ([]Certificate, stri
 		kinds := [][]string{{"p256", "rsa2048"}, {"rsa2048", "p256"}, {"p256", "p256"}, {"p384", "p256"}}[r.Intn(4)]
 
 		return []Certificate{c14OneCert(kinds[0], keys), c14OneCert(kinds[1], keys)}, "multi(" + strings.Join(kinds, "+") + ")"
+	case "multi3": // only used by the configuration-history specs
+		kinds := [][]string{{"p256", "p384", "p256"}, {"rsa2048", "p256", "p384"}, {"p256", "p256", "rsa2048"}}[r.Intn(3)]
+
+		return []Certificate{c14OneCert(kinds[0], keys), c14OneCert(kinds[1], keys), c14OneCert(kinds[2], keys)},
+			"multi3(" + strings.Join(kinds, "+") + ")"
 	default:
 		return []Certificate{c14OneCert(class, keys)}, class
 	}
@@ -340,11 +351,15 @@ func c14MakeCerts(class string, r *kit.Rand, keys *c14Keys) ([]Certificate, stri
 // ---------------------------------------------------------------- instrumented peer
 
 type c14Peer struct {
-	name string
-	pc   *PeerConnection
-	dtls *DTLSTransport
-	cert string   // cert class description
-	ders [][]byte // DER of the configured certificates (white-box), index 0 first
+	name  string
+	pc    *PeerConnection
+	dtls  *DTLSTransport
+	cert  string        // cert class description
+	ders  [][]byte      // DER of the configured certificates (white-box), index 0 first
+	certs []Certificate // the certificates the constructor was given / generated (GetConfiguration right after construction)
+
+	reconf       []c14ReconfCall // SetConfiguration history (under mu)
+	lastAccepted string          // kind of the last accepted SetConfiguration that carried certificates
 
 	mu         sync.Mutex
 	dtlsStates []string
@@ -368,6 +383,7 @@ func (p *c14Peer) snapshot() map[string]any {
 		"polled_dtls_connected": p.polledDTLS, "polled_pc_connected": p.polledPC,
 		"opened": append([]string{}, p.opened...), "ondatachannel": append([]string{}, p.announced...),
 		"messages": append([]string{}, p.msgs...), "tracks": p.tracks,
+		"setconfiguration_history": append([]c14ReconfCall{}, p.reconf...),
 	}
 }
 
@@ -509,6 +525,7 @@ func c14NewPeer(o c14PeerOpts, r *kit.Rand, keys *c14Keys) *c14Peer {
 		},
 	})
 	p := &c14Peer{name: o.name, pc: pc, cert: certDesc, dtls: pc.SCTP().Transport()}
+	p.certs = append([]Certificate{}, pc.GetConfiguration().Certificates...)
 	for _, c := range pc.configuration.Certificates { // white-box: the certificates this PeerConnection was configured with
 		p.ders = append(p.ders, append([]byte{}, c.x509Cert.Raw...))
 	}
@@ -754,7 +771,8 @@ func TestVerifC14(t *testing.T) { //nolint:gocognit,cyclop,maintidx
 	run := kit.Start(t, "C14", "real loopback PeerConnection pairs (negotiated + in-band data channel on both sides, audio track on both sides in ~half of the cases); "+
 		"cert classes auto/P-256/P-384/RSA-2048/two-certificates × media-level fingerprints on/off × answerer DTLS role client/server; "+
 		"the description sent to the verifying peer is altered per class (one hex digit at position p, hash name, truncated/extended/zero/own value, moved between levels, "+
-		"extra wrong line, absent, verification disabled). Expectation is recomputed from the altered text: certificate matches no a=fingerprint line ⇒ must never connect. "+
+		"extra wrong line, absent, verification disabled); configuration histories: SetConfiguration calls (same list, permuted, PEM clones, duplicates, subset, superset, foreign certificate, omitted) "+
+		"on peers with 2-3 user-supplied certificates before CreateOffer/CreateAnswer or before a renegotiation, and on a third of the peers of all other cases. Expectation is recomputed from the altered text: certificate matches no a=fingerprint line ⇒ must never connect. "+
 		"A case is non-trivial when a decisive observation was made (DTLS connected / failed|closed on the verifying side, or SetRemoteDescription error); "+
 		"distinct by (class, position, side, roles, cert classes, fingerprint levels, media)")
 	defer run.Finish()
@@ -825,8 +843,33 @@ func c14RunCase(run *kit.Run, i int, spec c14Spec, keys *c14Keys) { //nolint:goc
 	if (verifier == ans) == ansServer {
 		role = "server"
 	}
-	desc := fmt.Sprintf("class=%s p=%d/alt#%d side=%s verifier-dtls=%s off=%s/mfp=%v ans=%s/mfp=%v media=%v",
-		spec.Class, spec.Pos, digitRoll, spec.Side, role, off.cert, offMFP, ans.cert, ansMFP, media)
+	// configuration history (own random stream: the draws of the classes above are unchanged)
+	rc := kit.NewRand(kit.Seed(), 0xC14C0F000000+uint64(i))
+	offKinds, ansKinds := c14ReconfPlan(spec, rc)
+	ansAfterSRD := rc.Bool()
+	if !spec.Reneg {
+		off.reconfigure(run, offKinds, "before-offer", rc, keys)
+		if !ansAfterSRD {
+			ans.reconfigure(run, ansKinds, "before-srd", rc, keys)
+		}
+	}
+	planDesc := func(ks []string, when string) string {
+		if len(ks) == 0 {
+			return "-"
+		}
+
+		return strings.Join(ks, "+") + "@" + when
+	}
+	ansWhen := "before-srd"
+	if ansAfterSRD {
+		ansWhen = "after-srd"
+	}
+	if spec.Reneg {
+		ansWhen = "reneg"
+	}
+	desc := fmt.Sprintf("class=%s p=%d/alt#%d side=%s verifier-dtls=%s off=%s/mfp=%v ans=%s/mfp=%v media=%v setcfg=off:%s/ans:%s",
+		spec.Class, spec.Pos, digitRoll, spec.Side, role, off.cert, offMFP, ans.cert, ansMFP, media,
+		planDesc(offKinds, map[bool]string{false: "before-offer", true: "reneg"}[spec.Reneg]), planDesc(ansKinds, ansWhen))
 	detail := map[string]any{"case": desc, "spec": spec}
 	fail := func(sig, what string) {
 		detail["offerer"], detail["answerer"] = off.snapshot(), ans.snapshot()
@@ -880,6 +923,9 @@ func c14RunCase(run *kit.Run, i int, spec c14Spec, keys *c14Keys) { //nolint:goc
 		return
 	}
 	if srdErr == nil {
+		if ansAfterSRD && !spec.Reneg {
+			ans.reconfigure(run, ansKinds, "after-srd", rc, keys)
+		}
 		if answer, err = ans.pc.CreateAnswer(nil); err == nil {
 			err = ans.pc.SetLocalDescription(answer)
 		}
@@ -1022,6 +1068,21 @@ func c14RunCase(run *kit.Run, i int, spec c14Spec, keys *c14Keys) { //nolint:goc
 	// certificates actually presented (available as soon as the handshake delivered them, also when it then failed)
 	gotByOff := append([]byte{}, off.dtls.GetRemoteCertificate()...) // presented by the answerer
 	gotByAns := append([]byte{}, ans.dtls.GetRemoteCertificate()...) // presented by the offerer
+
+	// ---- renegotiation after a SetConfiguration history on the connected pair
+	var reOffer, reAnswer SessionDescription
+	if spec.Reneg && outcome == "connected" {
+		off.reconfigure(run, offKinds, "before-reoffer", rc, keys)
+		ans.reconfigure(run, ansKinds, "before-reanswer", rc, keys)
+		var rerr error
+		if reOffer, reAnswer, rerr = rigExchange(off.pc, ans.pc, nil, nil); rerr != nil {
+			// the statement does not promise that renegotiation succeeds; what was created is still judged below
+			run.Count("renegotiation_errors", 1)
+			run.Seen("harness_errors", firstN("renegotiation: "+rerr.Error(), 100))
+		} else {
+			run.Count("renegotiations_after_setconfiguration", 1)
+		}
+	}
 	finish()
 	verifier.poll()
 
@@ -1035,6 +1096,12 @@ func c14RunCase(run *kit.Run, i int, spec c14Spec, keys *c14Keys) { //nolint:goc
 	c14CheckAdvertised(run, i, desc, detail, "offer", offer.SDP, off, gotByAns)
 	if answer.SDP != "" {
 		c14CheckAdvertised(run, i, desc, detail, "answer", answer.SDP, ans, gotByOff)
+	}
+	if reOffer.SDP != "" {
+		c14CheckAdvertised(run, i, desc, detail, "re-offer", reOffer.SDP, off, gotByAns)
+	}
+	if reAnswer.SDP != "" {
+		c14CheckAdvertised(run, i, desc, detail, "re-answer", reAnswer.SDP, ans, gotByOff)
 	}
 
 	// ---- (B) enforcement
@@ -1082,7 +1149,15 @@ func c14RunCase(run *kit.Run, i int, spec c14Spec, keys *c14Keys) { //nolint:goc
 			run.Count("matching_pairs_connected", 1)
 			run.Case(desc, true)
 		case "failed":
-			fail("valid-fingerprint-rejected:"+spec.Class, "the description still carries the right fingerprint ("+spec.Class+") but DTLS failed")
+			sfx := "" // a certificate list replaced by an accepted SetConfiguration is a different cause than the alteration class
+			for _, p := range []*c14Peer{off, ans} {
+				p.mu.Lock()
+				if p.lastAccepted != "" && sfx == "" {
+					sfx = ":after-accepted-setconfiguration(" + p.lastAccepted + ")"
+				}
+				p.mu.Unlock()
+			}
+			fail("valid-fingerprint-rejected:"+spec.Class+sfx, "the description still carries the right fingerprint ("+spec.Class+") but DTLS failed")
 			run.Case(desc, true)
 		default:
 			run.Inconclusive("watchdog:" + outcome + ":" + spec.Class)
@@ -1142,6 +1217,11 @@ func c14CheckAdvertised(run *kit.Run, i int, desc string, detail map[string]any,
 	}
 	want := c14SHA256(presented)
 	sig := "advertised-fingerprint-differs-from-presented-cert:" + strings.SplitN(owner.cert, "(", 2)[0]
+	owner.mu.Lock()
+	if owner.lastAccepted != "" { // cause: the certificate list was replaced by an accepted SetConfiguration of this kind
+		sig += ":after-accepted-setconfiguration(" + owner.lastAccepted + ")"
+	}
+	owner.mu.Unlock()
 	report := func(what string) {
 		d := map[string]any{}
 		for k, v := range detail {
